@@ -118,6 +118,18 @@ func (c *Ctx) calleeEnvV(cc *ssa.CallCommon, g *ssa.Function, env Env, callVal s
 	for i, a := range args {
 		if i < len(g.Params) {
 			ne[g.Params[i]] = c.Path(a, env)
+			// a function handed to the callee: remembered with the frame it was made in
+			if _, isSig := a.Type().Underlying().(*types.Signature); isSig {
+				switch fv := stripConv(a).(type) {
+				case *ssa.MakeClosure, *ssa.Function:
+					if c.fnArgs == nil {
+						c.fnArgs = map[string]fnArg{}
+					}
+					key := fmt.Sprintf("%s@%p", ne[g.Params[i]], fv)
+					ne[g.Params[i]] = key
+					c.fnArgs[key] = fnArg{v: fv, env: env}
+				}
+			}
 			// a test result handed to the callee as a boolean: the callee's branch on it is a branch on the test
 			if isBoolType(a.Type()) {
 				if o := boolOriginOf(a); o != nil {
@@ -139,6 +151,54 @@ func (c *Ctx) calleeEnvV(cc *ssa.CallCommon, g *ssa.Function, env Env, callVal s
 		}
 	}
 	return ne
+}
+
+type fnArg struct {
+	v   ssa.Value // *ssa.MakeClosure or *ssa.Function
+	env Env       // the frame it was made in
+}
+
+// dynCallee: call invokes a function-typed parameter of the current frame whose argument is known (env): the function
+// and its environment — parameters from the call's arguments, captured variables from the frame that made the closure.
+func (c *Ctx) dynCallee(call *ssa.Call, env Env) (*ssa.Function, Env, bool) {
+	p, ok := call.Call.Value.(*ssa.Parameter)
+	if !ok || call.Call.IsInvoke() {
+		return nil, nil, false
+	}
+	fa, ok := c.fnArgs[env[p]]
+	if !ok {
+		return nil, nil, false
+	}
+	var fn *ssa.Function
+	ne := Env{}
+	switch x := fa.v.(type) {
+	case *ssa.Function:
+		fn = x
+	case *ssa.MakeClosure:
+		fn, _ = x.Fn.(*ssa.Function)
+		if fn != nil {
+			for i, b := range x.Bindings {
+				if i < len(fn.FreeVars) {
+					ne[fn.FreeVars[i]] = c.Path(b, fa.env)
+					// a captured variable lives in a cell: the closure reads it through the cell
+					if al, isAl := b.(*ssa.Alloc); isAl {
+						if st := singleStore(al); st != nil {
+							ne[fn.FreeVars[i]] = c.Path(st.Val, fa.env)
+						}
+					}
+				}
+			}
+		}
+	}
+	if fn == nil || fn.Blocks == nil {
+		return nil, nil, false
+	}
+	for i, a := range call.Call.Args {
+		if i < len(fn.Params) {
+			ne[fn.Params[i]] = c.Path(a, env)
+		}
+	}
+	return fn, ne, true
 }
 
 type boolOrigin struct {
@@ -219,6 +279,13 @@ func (c *Ctx) sites(f *ssa.Function, env Env, chk *GCheck, depth int) []gsite {
 				boolWant := !chk.BoolFalse
 				if !match && !chk.NoDescend && depth < 8 {
 					cs := c.Callees(&x.Call)
+					envOf := func(g *ssa.Function) Env { return c.calleeEnvV(&x.Call, g, env, x) }
+					// a function handed to this frame as an argument and called here: the very function that was handed in
+					// (with the variables it captured rendered in the frame it was made in)
+					if fn, fenv, ok := c.dynCallee(x, env); ok {
+						cs = []*ssa.Function{fn}
+						envOf = func(*ssa.Function) Env { return fenv }
+					}
 					if len(cs) > 0 {
 						all := true
 						for _, g := range cs {
@@ -226,7 +293,7 @@ func (c *Ctx) sites(f *ssa.Function, env Env, chk *GCheck, depth int) []gsite {
 								all = false
 								break
 							}
-							if ok, _ := c.ensures(g, c.calleeEnvV(&x.Call, g, env, x), chk, depth+1); !ok {
+							if ok, _ := c.ensures(g, envOf(g), chk, depth+1); !ok {
 								all = false
 								break
 							}
@@ -234,7 +301,7 @@ func (c *Ctx) sites(f *ssa.Function, env Env, chk *GCheck, depth int) []gsite {
 						if all {
 							match = true
 							boolWant = true
-						} else if len(cs) == 1 && isBoolType(x.Type()) && c.ensuresFalse(cs[0], c.calleeEnvV(&x.Call, cs[0], env, x), chk, depth+1) {
+						} else if len(cs) == 1 && isBoolType(x.Type()) && c.ensuresFalse(cs[0], envOf(cs[0]), chk, depth+1) {
 							// a predicate of the opposite sense ("seen before?"): it answers false only across the check
 							match = true
 							boolWant = false
